@@ -848,6 +848,120 @@ const unprivileged = 65534
 
 var traceCases = os.Getenv("C04_TRACE") != "" // development aid: print every case before it runs
 
+// ---- two removals of one tree from two goroutines -----------------------------------------------------------
+//
+// One removal (A) is held right before its k-th backend operation, for every k, while another removal (B) of the same
+// path through the same filesystem object runs from start to end; then A is let go. In-memory backend. What is judged is
+// B: a removal without exclusion patterns that reports success has left nothing; one with the pattern "keep" has left
+// nothing but what the pattern protects. (If B does not return within 200 ms while A is held, A is let go first: a
+// fall-back for implementations that make B wait for A, not an oracle — both calls only ever remove, so whatever is left
+// when B has reported success was left by B.)
+type holdHook struct {
+	mu       sync.Mutex
+	k, seen  int
+	parked   bool
+	reached  chan struct{}
+	released chan struct{}
+}
+
+func (h *holdHook) Before(op *vfsx.Op) *vfsx.Inject {
+	h.mu.Lock()
+	mine := !h.parked && h.seen == h.k
+	if mine {
+		h.parked = true
+	}
+	if !h.parked || mine {
+		h.seen++
+	}
+	h.mu.Unlock()
+	if mine {
+		close(h.reached)
+		<-h.released
+	}
+	return nil
+}
+func (h *holdHook) After(*vfsx.Op) {}
+
+func concurrentRemovals(rep *ev.Reporter) (schedules int) {
+	type removal struct {
+		name string
+		run  func(fs filesystem.FS) error
+	}
+	ctx := context.Background()
+	rmEx := removal{"RemoveWithExclusionPatterns(keep)", func(fs filesystem.FS) error {
+		return fs.RemoveWithContextAndExclusionPatterns(ctx, "/T", "keep")
+	}}
+	cleanEx := removal{"CleanDirWithExclusionPatterns(keep)", func(fs filesystem.FS) error {
+		return fs.CleanDirWithContextAndExclusionPatterns(ctx, "/T", "keep")
+	}}
+	rm := removal{"Rm", func(fs filesystem.FS) error { return fs.Rm("/T") }}
+	rmCtx := removal{"RemoveWithContext", func(fs filesystem.FS) error { return fs.RemoveWithContext(ctx, "/T") }}
+	files := []string{"/T/sub/data.txt", "/T/sub/keep.me", "/T/top.txt", "/T/other/deep/x.txt"}
+	for _, pair := range [][2]removal{{rmEx, rm}, {cleanEx, rm}, {rmEx, rmCtx}, {rm, rmEx}, {rm, rm}} {
+		a, b := pair[0], pair[1]
+		for k := 0; ; k++ {
+			raw := afero.NewMemMapFs()
+			for _, f := range files {
+				_ = raw.MkdirAll(filepath.Dir(f), 0o755)
+				_ = afero.WriteFile(raw, f, []byte("content of "+f), 0o644)
+			}
+			h := &holdHook{k: k, reached: make(chan struct{}), released: make(chan struct{})}
+			fs := filesystem.NewVirtualFileSystem(vfsx.NewMem(raw, vfsx.NewShared(h), 0), filesystem.InMemoryFS, filesystem.IdentityPathConverterFunc)
+			doneA := make(chan error, 1)
+			go func() { doneA <- a.run(fs) }()
+			held := false
+			select {
+			case <-h.reached:
+				held = true
+			case <-doneA:
+			}
+			if !held {
+				break // k is beyond A's last operation: every instant has been covered
+			}
+			schedules++
+			doneB := make(chan error, 1)
+			go func() { doneB <- b.run(fs) }()
+			var errB error
+			waited := false
+			select {
+			case errB = <-doneB:
+			case <-time.After(200 * time.Millisecond):
+				waited = true
+				close(h.released)
+				errB = <-doneB
+			}
+			var left []string
+			_ = afero.Walk(raw, "/T", func(p string, _ os.FileInfo, err error) error {
+				if err == nil {
+					left = append(left, p)
+				}
+				return nil
+			})
+			if !waited {
+				close(h.released)
+			}
+			<-doneA
+			if errB != nil {
+				continue // B may fail (entries vanish under it); it may not claim a success it did not achieve
+			}
+			bad := ""
+			for _, p := range left {
+				protected := b.name == rmEx.name && (p == "/T" || p == "/T/sub" || p == "/T/sub/keep.me")
+				if !protected {
+					bad = p
+					break
+				}
+			}
+			if bad != "" {
+				sort.Strings(left)
+				rep.Violation(fmt.Sprintf("two-goroutines:success-but-not-gone:%s:while=%s", b.name, a.name), map[string]any{"held": a.name, "held_before_backend_operation": k, "undisturbed": b.name, "left_behind": left, "b_had_to_wait_for_a": waited})
+				break // the first instant is the one to keep; the pair is not pursued
+			}
+		}
+	}
+	return
+}
+
 func TestC04(t *testing.T) {
 	if w := os.Getenv("C04_WORKER"); w != "" {
 		var shard, n int
@@ -904,6 +1018,12 @@ func TestC04(t *testing.T) {
 		b, err := os.ReadFile(rp)
 		if err != nil {
 			rep.EngineError("cannot read the replay file: %v", err)
+			rep.Finish()
+			return
+		}
+		if strings.Contains(string(b), "\"signature\": \"two-goroutines:") { // the whole (small) family is run again
+			rep.Coverage["two_goroutine_removal_schedules"] = concurrentRemovals(rep)
+			rep.Coverage["evaluations"], rep.Coverage["distinct_nontrivial"], rep.Coverage["exhaustive"] = 1, 1, false
 			rep.Finish()
 			return
 		}
@@ -1035,6 +1155,7 @@ func TestC04(t *testing.T) {
 		rep.ViolationN(s, map[string]any{"index": si.FirstIndex, "detail": si.First.Detail}, si.Count)
 	}
 	b := theBound()
+	rep.Coverage["two_goroutine_removal_schedules"] = concurrentRemovals(rep)
 	rep.Coverage["evaluations"] = total.Evaluations
 	rep.Coverage["distinct_nontrivial"] = total.Nontrivial
 	rep.Coverage["rule"] = "a case counts when the removal code reached the mechanism the property is about: the trace of backend calls contains a call on a symbolic link of the tree or through one (link_reached), or the tree held an entry protected by the exclusion pattern given (protected); every case is a distinct (backend, shape, links, read-only entry, entry point, pattern) tuple"
